@@ -608,8 +608,25 @@ def check_rule(text, kind, want, level, ctx, case, ndocs=1):
                 ctx.violation(dict(case, loader=lname, op=op), {'what': 'cross-document alias: the first document was not delivered before the error', 'n': n}, None)
 
 
+def volume_cases(ctx):
+    """The rules hold for the 5000th alias as for the first: flat documents and long streams with many aliases and anchors."""
+    texts = [('- &a [x]\n' + '- *a\n' * n, 1) for n in (600, 2500)]
+    texts.append((''.join('- &a%d [x%d]\n- *a%d\n' % (i, i, i) for i in range(700)), 1))
+    texts.append(('b: &b {x: 1}\n' + ''.join('k%d: *b\n' % i for i in range(800)), 1))
+    texts.append(('---\n- &a {k: v}\n- *a\n- *a\n- [*a, {z: *a}]\n' * 250, 250))
+    texts.append(('--- &r\n- *r\n- &s {me: *s, up: *r}\n- *s\n' * 200, 200))
+    for text, nd in texts:
+        case = {'kind': 'rules', 'rule': 'volume', 'level': 'safe', 'text': text, 'want': 'ok'}
+        ctx.crumb({'kind': 'rules', 'rule': 'volume', 'len': len(text)})
+        ctx.case(core.h64(text), True, ['rule:volume'])
+        check_rule(text, 'volume', 'ok', 'safe', ctx, case, ndocs=nd)
+        check_identity(text, None, ['ok'] * nd, 'safe', ctx, {'kind': 'identity', 'level': 'safe', 'text': text, 'expects': ['ok'] * nd})
+
+
 def run(spec, ctx):
     r = random.Random(core.h64('C13', spec['seed'], spec['kind'], spec['shard']))
+    if spec['kind'] == 'rules' and spec['shard'] == 0:
+        volume_cases(ctx)
     for i in range(spec['n']):
         if spec['kind'] == 'identity':
             identity_case(r, ctx, i)
